@@ -310,7 +310,7 @@ func c08(c *core.Ctx) {
 							lockDom = true
 						}
 					}
-					if ce.Name == "builtin:delete" && ssax.AnyIn(ssax.Backward(ci.Call.Args[0]), ssax.LoadOfField("server.server.willMessage")) && ssax.Dominates(ci, s.Instr) {
+					if ce.Name == "builtin:delete" && ssax.AnyIn(ssax.Backward(rawArgs(ci)[0]), ssax.LoadOfField("server.server.willMessage")) && ssax.Dominates(ci, s.Instr) {
 						delDom = true
 					}
 				}
@@ -336,7 +336,7 @@ func c08(c *core.Ctx) {
 		var delayArg ssa.Value
 		ssax.Instrs(ur, false, func(_ *ssa.Function, in ssa.Instruction) {
 			if ci, ok := in.(*ssa.Call); ok && ssax.ResolveCallee(&ci.Call).Name == "time.NewTimer" {
-				delayArg = ci.Call.Args[0]
+				delayArg = rawArgs(ci)[0]
 			}
 		})
 		if delayArg != nil {
